@@ -5,7 +5,7 @@
 template <size_t R0, size_t R1, class C, class X, class Y>
 void ob_c07_where(const C& c, const X& x, const Y& y, int tag)
 {
-    auto v = nm::unwrap(view::where(c, x, y));
+    auto v = nm::unwrap(view::where(raw(c), raw(x), raw(y)));
     auto shp = nm::shape(v);
     OBLIGE("C07.where.shape|C04.where.shape", (size_t)nm::len(shp) == 2 && (size_t)nm::at(shp, meta::ct_v<0>) == R0 && (size_t)nm::at(shp, meta::ct_v<1>) == R1, R0, R1, tag);
     for_<R0>([&](auto I){ for_<R1>([&](auto J){
@@ -14,12 +14,12 @@ void ob_c07_where(const C& c, const X& x, const Y& y, int tag)
 }
 // (view::clip does not compile on the unchanged tree: its second `where` receives a maybe-typed view and broadcast_arrays rejects it at
 //  compile time; the clip test is excluded from the baseline build. Nothing is stated about it.)
-void ob_c07_where_1(const carr<2,3>& c, const carr<3>& x, const carr<2,1>& y) { ob_c07_where<2,3>(c, x, y, 1); }
-void ob_c07_where_2(const carr<3>& c, const carr<2,1>& x, long y)            { ob_c07_where<2,3>(c, x, y, 2); }
-void ob_c07_where_3(const carr<2,1>& c, long x, const carr<1,3>& y)          { ob_c07_where<2,3>(c, x, y, 3); }
+void ob_c07_where_1(const ARR<2,3>& c, const ARR<3>& x, const ARR<2,1>& y) { PIN(c, 2,3); PIN(x, 3); PIN(y, 2,1); ob_c07_where<2,3>(OP<2,3>(c), OP<3>(x), OP<2,1>(y), 1); }
+void ob_c07_where_2(const ARR<3>& c, const ARR<2,1>& x, long y) { PIN(c, 3); PIN(x, 2,1); ob_c07_where<2,3>(OP<3>(c), OP<2,1>(x), y, 2); }
+void ob_c07_where_3(const ARR<2,1>& c, long x, const ARR<1,3>& y) { PIN(c, 2,1); PIN(y, 1,3); ob_c07_where<2,3>(OP<2,1>(c), x, OP<1,3>(y), 3); }
 
-void ob_c07c_negctl(const carr<2,1>& c, long x, const carr<1,3>& y)
-{
+void ob_c07c_negctl(const ARR<2,1>& c, long x, const ARR<1,3>& y)
+{ PIN(c, 2,1); PIN(y, 1,3);
     auto v = nm::unwrap(view::where(c, x, y));
     NEGCTL("C07.NEG.where_branches_swapped", (long)v(1, 2) == (c(1, 0) ? y(0, 2) : x), 0);
 }
